@@ -9,7 +9,7 @@
     native text, from the first re-parse on for foreign spellings) - partial in that sense. *)
 From V Require Import base.Prelude base.Strs gen.Tables model.Cfg model.Names model.Wildcard model.Ports model.Addr model.Ace
   model.Lex model.AddrText model.AceText model.AclText
-  proofs.NamesProofs proofs.PortsProofs proofs.TextProofs proofs.SplitterProofs proofs.AceFixProofs proofs.AddrObjProofs.
+  proofs.NamesProofs proofs.PortsProofs proofs.TextProofs proofs.SplitterProofs proofs.AceFixProofs proofs.AddrObjProofs proofs.ParsedAceProofs.
 Local Open Scope N_scope.
 
 Theorem C06_port_partial : forall pr pl v15 nr o xs p,
@@ -77,6 +77,32 @@ Proof. eexists. eexists. eexists. split; [vm_compute; reflexivity|]. split; vm_c
 Theorem C06_ace : forall c t SRC DST,
   t_type_ext t = true -> fields_fixed c t SRC DST -> parse_ace_text c (render_ace c t) = Ok t.
 Proof. exact ace_fixpoint. Qed.
+
+(** ** an extended ACE built by the readers
+    [C06_parsed_ace] discharges the hypotheses of [C06_ace]: an extended, group-free ACE whose
+    addresses were built by the address reader from native spellings (not N1), whose ports were
+    built by the port reader (none without tcp/udp: they would not be rendered), with a protocol
+    number up to 255 and option tokens that are well-formed, start no address, are accepted by the
+    option reader and can be told from the destination port, is read back UNCHANGED from its
+    rendered line, on IOS and NX-OS, for every version, switch setting and limit.  The rendered
+    port and protocol tokens are shown to be well-formed and address-free
+    ([render_port_toks], from the regenerated tables). *)
+Theorem C06_parsed_ace : forall c, (plat c = Ios \/ plat c = Nxos) ->
+  forall permit n sq ssp dsp s d toks1 toks2 p1 p2 opts flags logs,
+  n <= 255 ->
+  sp_bounds ssp /\ ~ is_n1 (plat c) ssp /\ addr_of_spelling (plat c) (Z.of_nat (max_ncwb c)) ssp = Ok s ->
+  sp_bounds dsp /\ ~ is_n1 (plat c) dsp /\ addr_of_spelling (plat c) (Z.of_nat (max_ncwb c)) dsp = Ok d ->
+  parse_port (plat c) (proto_ctx (plat c) (is15 c) n) toks1 = Ok p1 /\ (proto_ctx (plat c) (is15 c) n = None -> p1 = empty_port) ->
+  parse_port (plat c) (proto_ctx (plat c) (is15 c) n) toks2 = Ok p2 /\ (proto_ctx (plat c) (is15 c) n = None -> p2 = empty_port) ->
+  Forall token opts /\ Forall af opts /\ parse_option opts = Ok (flags, logs)
+  /\ split_dstport_option (render_port (port_nr c) (proto_ctx (plat c) (is15 c) n) p2 ++ opts)
+     = (render_port (port_nr c) (proto_ctx (plat c) (is15 c) n) p2, opts) ->
+  let t := mkTace true sq (mkAce permit n s d p1 p2 flags logs) opts in
+  parse_ace_text c (render_ace c t) = Ok t.
+Proof. exact parsed_ace_fixpoint. Qed.
+
+Theorem C06_port_tokens : forall nr c p, Forall token (render_port nr c p) /\ Forall af (render_port nr c p).
+Proof. exact render_port_toks. Qed.
 
 Local Open Scope string_scope.
 Definition c06_cx := mkCfg Ios false false false 16%nat.
